@@ -501,11 +501,33 @@ def _exactly_once(ctx, priv, merged):
                 from_merged(parts[0]['domains'][0][1], depth + 1)
         return False
     parts = K.list_contributions(sa, qarg.id)
+    domain_of = None
+    host = sa
+    qdef = K.rexpr(sa, qarg)
+    if isinstance(qdef, ast.Call) and K.recv_text(qdef) == 'self' and \
+            len(qdef.args) == 1 and not qdef.keywords and \
+            cell.methods.get(qdef.func.attr) is not None:
+        # the list of instances is built by a helper of the cell that walks
+        # the queue it is given (and returns what it collected): judge the
+        # helper's loop, with its parameter standing for the argument
+        helper = cell.methods[qdef.func.attr]
+        rets = [r.value for r in K.walk_no_nested(helper.node)
+                if isinstance(r, ast.Return) and r.value is not None]
+        hparams = helper.params()
+        if len(rets) == 1 and isinstance(rets[0], ast.Name) and \
+                len(hparams) == 2:
+            hparts = K.list_contributions(helper, rets[0].id)
+            if len(hparts) == 1 and len(hparts[0].get('domains', [])) == 1 \
+                    and N.txt(hparts[0]['domains'][0][1]) == hparams[1]:
+                parts = hparts
+                domain_of = qdef.args[0]
+                host = helper
     okq = len(parts) == 1 and 'other' not in parts[0] and \
         not parts[0]['conditional'] and len(parts[0]['domains']) == 1 and \
         parts[0]['elt'] is not None and parts[0]['var'] is not None and (
-            N.txt(parts[0]['elt']) in ('%s[-1]' % N.txt(parts[0]['var']),
-                                       '%s[5]' % N.txt(parts[0]['var'])) or
+            K.rtxt(host, parts[0]['elt']) in (
+                '%s[-1]' % N.txt(parts[0]['var']),
+                '%s[5]' % N.txt(parts[0]['var'])) or
             # ... or the entry is destructured where it is iterated and the
             # last position is kept
             (isinstance(parts[0]['var'], ast.Tuple) and
@@ -515,7 +537,8 @@ def _exactly_once(ctx, priv, merged):
            'schedule_alloc maps the queue to instances without a filter',
            construct='queue = [item[-1] for item in util_queue]')
     ctx.ob('C06.5', sa, None,
-           okq and from_merged(parts[0]['domains'][0][1]),
+           okq and from_merged(domain_of if domain_of is not None else
+                               parts[0]['domains'][0][1]),
            'the placement loop receives the whole merged queue in order',
            construct='schedule_alloc data flow')
 
